@@ -306,7 +306,21 @@ impl Suite for Values {
                 // operation sequence
                 let len = rng.range(1, if tier == Tier::Quick { 25 } else { 60 });
                 let small = rng.chance(3, 4);
+                // sometimes a bulk operation far beyond the 32 values of one event, with names repeated
+                // inside the batch (what a bulk path must still treat as one-by-one inserts)
+                let bulk = |rng: &mut Rng, finite: bool| -> Vec<(String, Val)> {
+                    let pool = rng.range(5, 30);
+                    (0..rng.range(33, 90)).map(|_| (format!("k{}", rng.below(pool)), gen::val(rng, finite))).collect()
+                };
                 for _ in 0..len {
+                    if rng.chance(1, 12) {
+                        match rng.below(3) {
+                            0 => lines.push(format!("v extend {}", entries_tok(&bulk(rng, false)))),
+                            1 => lines.push(format!("v collect {}", entries_tok(&bulk(rng, false)))),
+                            _ => lines.push(format!("v json {}", entries_tok(&bulk(rng, true)))),
+                        }
+                        continue;
+                    }
                     match rng.below(10) {
                         0..=3 => lines.push(format!("v insert {} {}", xs(&gen::name(rng, small)), gen::val(rng, false).tok())),
                         4 => lines.push(format!("v get {}", xs(&gen::name(rng, small)))),
